@@ -12,11 +12,17 @@ theorem body_tally__newRootScope_unchanged : Facts.body_tally__newRootScope = ["
 
 theorem body_tally_scope_Close_unchanged : Facts.body_tally_scope_Close = ["func() error", "if !s.closed.CAS(false, true) { if s.root { verifhook.Yield(\"close.wait-for-winner\") <-s.closeDone } return nil }", "verifhook.Yield(\"close.post-cas\")", "close(s.done)", "verifhook.Yield(\"close.post-done\")", "if s.root { defer close(s.closeDone) s.wg.Wait() if s.reporter != nil { s.registry.Report(s.reporter) } else if s.cachedReporter != nil { s.registry.CachedReport() } if s.baseReporter != nil { s.registry.purge() s.baseReporter.Flush() } verifhook.Yield(\"close.pre-reporter-close\") if closer, ok := s.baseReporter.(io.Closer); ok { return closer.Close() } }", "return nil"] := rfl
 
+theorem body_tally_scope_SubScope_unchanged : Facts.body_tally_scope_SubScope = ["func(prefix string) Scope", "prefix = s.sanitizer.Name(prefix)", "return s.subscope(s.fullyQualifiedName(prefix), nil)"] := rfl
+
+theorem body_tally_scope_Tagged_unchanged : Facts.body_tally_scope_Tagged = ["func(tags map[string]string) Scope", "return s.subscope(s.prefix, tags)"] := rfl
+
 theorem body_tally_scope_reportLoop_unchanged : Facts.body_tally_scope_reportLoop = ["func(interval time.Duration)", "verifhook.Yield(\"loop.start\")", "ticker := time.NewTicker(interval)", "defer ticker.Stop()", "for { select { case <-ticker.C: verifhook.Yield(\"loop.tick\") s.reportLoopRun() case <-s.done: verifhook.Yield(\"loop.exit\") return } }"] := rfl
 
 theorem body_tally_scope_reportLoopRun_unchanged : Facts.body_tally_scope_reportLoopRun = ["func()", "if s.closed.Load() { return }", "verifhook.Yield(\"loop.run.post-closed-check\")", "s.reportRegistry()"] := rfl
 
 theorem body_tally_scope_reportRegistry_unchanged : Facts.body_tally_scope_reportRegistry = ["func()", "if s.reporter != nil { s.registry.Report(s.reporter) s.reporter.Flush() } else if s.cachedReporter != nil { s.registry.CachedReport() s.cachedReporter.Flush() }"] := rfl
+
+theorem body_tally_scope_subscope_unchanged : Facts.body_tally_scope_subscope = ["func(prefix string, tags map[string]string) Scope", "return s.registry.Subscope(s, prefix, tags)"] := rfl
 
 theorem body_tally_scopeRegistry_CachedReport_unchanged : Facts.body_tally_scopeRegistry_CachedReport = ["func()", "verifhook.Yield(\"registry.pass.begin\")", "r.reportInternalMetrics()", "for _, subscopeBucket := range r.subscopes", "| subscopeBucket.mu.RLock()", "| for name, s := range subscopeBucket.s { verifhook.YieldStr(\"registry.visit\", name) closed := s.closed.Load() verifhook.Yield(\"registry.pre-closed-read\") s.cachedReport() if closed { r.removeWithRLock(subscopeBucket, name, s) s.clearMetrics() } }", "| subscopeBucket.mu.RUnlock()"] := rfl
 
